@@ -101,6 +101,11 @@ def run(chk, F, tier):
             ok = D.implies_eq(st2, TR, T0 + r.scale(sign))
             chk.ob(rule, inst, what, ok, "Duration-level linear form", detail=None if ok else {
                 "result": repr(TR), "expected": repr(T0 + r.scale(sign)), "path": describe_path(eng, st)}, sample=(npaths == 1))
+            # the count is right - and it is stored in the canonical representation (nanoseconds < one century), without which the
+            # epoch built does not compare equal to the epoch it must equal
+            okc = D.is_canonical(st2, res.fs[0])
+            chk.ob(rule, inst, "result-duration-canonical", okc, "representation invariant of the stored duration",
+                   detail=None if okc else {"result": repr(res.fs[0])[:200], "path": describe_path(eng, st)})
             if not assign:
                 pass
         no_bad_events(chk, rule, inst, finals, eng)
